@@ -146,6 +146,7 @@ func NewJApiCore(file *fs.File, oo ...Option) *JApiCore {
 		directive.Params:           core.addJsonRpcParams,
 		directive.Result:           core.addJsonRpcResult,
 		directive.OperationID:      core.addOperationID,
+		directive.Tags:             core.addTags,
 	}
 
 	for _, o := range oo {
